@@ -216,14 +216,16 @@ fn run_history(s: u64, ops: &[Op], drv: Option<&mut Driver>, verbose: bool) -> O
                 (format!("reopen {} {} 0", real.header.wal_sequence, real.header.wal_checkpoint_pos), imp)
             }
         };
-        let model = match drv.as_deref_mut() { Some(d) => d.ask(&req), None => imp.clone() };
+        // after the first disagreement model and implementation have diverged: stop comparing, but keep
+        // executing the history so that the reference-list oracle can still judge the implementation
+        let model = match drv.as_deref_mut() { Some(d) if out.disagree.is_none() => d.ask(&req), _ => imp.clone() };
         if verbose { println!("  {:<28} impl: {:<40} model: {}", if req.len() > 28 { &req[..28] } else { &req }, imp, model); }
         out.trace.push(format!("{req} -> {imp}"));
         if model != imp && out.disagree.is_none() {
             out.disagree = Some((format!("op {i} `{}`", if req.len() > 60 { &req[..60] } else { &req }), model, imp.clone()));
         }
         if real.wal.is_none() { break; }
-        if out.oracle.is_some() || out.disagree.is_some() { break; }
+        if out.oracle.is_some() { break; }
     }
     out
 }
